@@ -96,6 +96,13 @@ def run(ctx):
     for i, d in enumerate(docs):
         for name, e in edits(d, rng, all_truncations=(len(d) <= 60 or i % 25 == 0)):
             cases.append((name, e))
+    # declared lengths at the width boundaries (2^31, 2^32, 2^63, 2^64 and just around them) for every type code, with and
+    # without bytes behind them: the C06 hostile documents, judged here for "malformed => error"
+    import c06
+    for i, d in enumerate(c06.hostile_binary(rng)):
+        if len(d) < 400:
+            cases.append(("hostile-length", d))
+            cases.append(("hostile-length-bare", d[:-4] if d[-4:] == [0x21, 0x01, 0x21, 0x02] else d + [0x20]))
     hexes = [iongen.hx(e) for _, e in cases]
     valid = binlib.sdecode_many(hexes)
     # SpecBin leaves timestamp bodies opaque (T<body>): judge each body with the calendar rules of the C15 oracle
